@@ -99,19 +99,24 @@ def mode_varweights(p):
         rs = np.random.RandomState(seed)
         K, D, N = rs.randint(1, 4), rs.randint(1, 4), rs.randint(6, 14)
         x, c = blobs(rs, K, D, N)
+        if seed % 3 == 1:
+            # samples stored as uint8 (pixels): same values, narrow integer dtype
+            lo, hi = x.min(), x.max()
+            x = np.round((x - lo) / max(hi - lo, 1e-9) * 250).astype(np.uint8)
+            c = np.round((c - lo) / max(hi - lo, 1e-9) * 250)
         m = KMeansMachine(K)
         m.centroids_ = c
-        lab = ref_dist(x, c).argmin(axis=0)
+        lab = ref_dist(x.astype(float), c).argmin(axis=0)
         if len(set(lab)) < K:
             return None
         w = np.array([np.mean(lab == k) for k in range(K)])
-        v = np.array([x[lab == k].var(axis=0) for k in range(K)])
+        v = np.array([x[lab == k].astype(float).var(axis=0) for k in range(K)])
         cuts = sorted(set(rs.randint(1, N, size=rs.randint(0, 3)).tolist()))
         chunks = tuple(np.diff([0] + cuts + [N]).tolist())
         for variant, data in (("numpy", x), ("dask%s" % (chunks,), da.from_array(x, chunks=(chunks, D)))):
             gv, gw = m.get_variances_and_weights_for_each_cluster(data)
             if not close(gw, w, 1e-9) or not close(gv, v, 1e-7):
-                return {"input": {"x": x.tolist(), "centroids": c.tolist(), "variant": variant}, "observed": {"variances": np.asarray(gv).tolist(), "weights": np.asarray(gw).tolist()},
+                return {"input": {"x": x.tolist(), "dtype": str(x.dtype), "centroids": c.tolist(), "variant": variant}, "observed": {"variances": np.asarray(gv).tolist(), "weights": np.asarray(gw).tolist()},
                         "expected": {"variances": v.tolist(), "weights": w.tolist()}, "what": "cluster variances/weights differ from the biased variance / fraction of the assigned samples"}
     return search(one, 100)
 
